@@ -6,6 +6,7 @@
     * `serial_is_acceptance_order`     limit never above 1 → the order in which worker functions start is a subsequence of the
                                        acceptance order (C04: "with concurrency 1 this is exactly the execution order")
     * `started_were_accepted`          nothing runs that was not accepted
+    * `accepted_is_somewhere`          every accepted job was handed out, is pending, or was purged
     * `ahead_slack`                    Disp's slack bound, for the composed model
   Non-vacuity examples at the end.
 -/
@@ -18,21 +19,30 @@ namespace FifoDisp
 structure J (s : State) : Prop where
   disp : Disp.Reach s.d
   sub : (s.d.deqd ++ s.pending).Sublist s.accepted
+  kept : ∀ j ∈ s.accepted, j ∈ s.d.deqd ∨ j ∈ s.pending ∨ j ∈ s.dropped
 
-theorem J_init : J init := ⟨Disp.Reach.init, by simp [init]⟩
+theorem J_init : J init := ⟨Disp.Reach.init, by simp [init], by simp [init]⟩
 
 theorem J_step {s s' : State} (e : Ev) (hJ : J s) (h : step s e = .ok s') : J s' := by
-  obtain ⟨hd, hs⟩ := hJ
+  obtain ⟨hd, hs, hk⟩ := hJ
   cases e with
   | enq j =>
     simp only [step] at h
     split at h
     · cases h
     · cases h
-      refine ⟨hd, ?_⟩
-      show (s.d.deqd ++ (s.pending ++ [j])).Sublist (s.accepted ++ [j])
-      rw [← List.append_assoc]
-      exact List.Sublist.append hs (List.Sublist.refl _)
+      refine ⟨hd, ?_, ?_⟩
+      · show (s.d.deqd ++ (s.pending ++ [j])).Sublist (s.accepted ++ [j])
+        rw [← List.append_assoc]
+        exact List.Sublist.append hs (List.Sublist.refl _)
+      · intro x hx
+        show x ∈ s.d.deqd ∨ x ∈ s.pending ++ [j] ∨ x ∈ s.dropped
+        rcases List.mem_append.mp hx with hx | hx
+        · rcases hk x hx with h | h | h
+          · exact Or.inl h
+          · exact Or.inr (Or.inl (List.mem_append_left _ h))
+          · exact Or.inr (Or.inr h)
+        · exact Or.inr (Or.inl (List.mem_append_right _ hx))
   | drop j =>
     simp only [step] at h
     split at h
@@ -41,10 +51,21 @@ theorem J_step {s s' : State} (e : Ev) (hJ : J s) (h : step s e = .ok s') : J s'
       split at h
       · cases h
       · cases h
-        refine ⟨hd, ?_⟩
-        show (s.d.deqd ++ rest).Sublist s.accepted
-        rw [hp] at hs
-        exact List.Sublist.trans (List.Sublist.append (List.Sublist.refl _) (List.sublist_cons_self _ _)) hs
+        rename_i hne
+        have hj : hd' = j := by simpa using hne
+        refine ⟨hd, ?_, ?_⟩
+        · show (s.d.deqd ++ rest).Sublist s.accepted
+          rw [hp] at hs
+          exact List.Sublist.trans (List.Sublist.append (List.Sublist.refl _) (List.sublist_cons_self _ _)) hs
+        · intro x hx
+          show x ∈ s.d.deqd ∨ x ∈ rest ∨ x ∈ s.dropped ++ [j]
+          rcases hk x hx with h | h | h
+          · exact Or.inl h
+          · rw [hp] at h
+            rcases List.mem_cons.mp h with h | h
+            · exact Or.inr (Or.inr (List.mem_append_right _ (by rw [h, hj]; exact List.mem_singleton.mpr rfl)))
+            · exact Or.inr (Or.inl h)
+          · exact Or.inr (Or.inr (List.mem_append_left _ h))
   | d e =>
     cases e with
     | deq j =>
@@ -60,45 +81,68 @@ theorem J_step {s s' : State} (e : Ev) (hJ : J s) (h : step s e = .ok s') : J s'
             cases h
             have hj : hd' = j := by simpa using hne
             obtain ⟨_, _, hd3⟩ := Disp.deq_ok hd2
-            refine ⟨Disp.Reach.step _ hd hd2, ?_⟩
-            show (d'.deqd ++ rest).Sublist s.accepted
-            rw [hd3]
-            show ((s.d.deqd ++ [j]) ++ rest).Sublist s.accepted
-            rw [hp, hj] at hs
-            simpa [List.append_assoc] using hs
+            refine ⟨Disp.Reach.step _ hd hd2, ?_, ?_⟩
+            · show (d'.deqd ++ rest).Sublist s.accepted
+              rw [hd3]
+              show ((s.d.deqd ++ [j]) ++ rest).Sublist s.accepted
+              rw [hp, hj] at hs
+              simpa [List.append_assoc] using hs
+            · intro x hx
+              show x ∈ d'.deqd ∨ x ∈ rest ∨ x ∈ s.dropped
+              rw [hd3]
+              show x ∈ s.d.deqd ++ [j] ∨ x ∈ rest ∨ x ∈ s.dropped
+              rcases hk x hx with h | h | h
+              · exact Or.inl (List.mem_append_left _ h)
+              · rw [hp] at h
+                rcases List.mem_cons.mp h with h | h
+                · exact Or.inl (List.mem_append_right _ (by rw [h, hj]; exact List.mem_singleton.mpr rfl))
+                · exact Or.inr (Or.inl h)
+              · exact Or.inr (Or.inr h)
           · cases h
     | lim n =>
       simp only [step] at h
       split at h
       · rename_i d' hd2
         cases h
-        refine ⟨Disp.Reach.step _ hd hd2, ?_⟩
         have := Disp.lim_ok hd2
-        show (d'.deqd ++ s.pending).Sublist s.accepted
-        rw [this]
-        exact hs
+        refine ⟨Disp.Reach.step _ hd hd2, ?_, ?_⟩
+        · show (d'.deqd ++ s.pending).Sublist s.accepted
+          rw [this]
+          exact hs
+        · intro x hx
+          show x ∈ d'.deqd ∨ x ∈ s.pending ∨ x ∈ s.dropped
+          rw [this]
+          exact hk x hx
       · cases h
     | enter j =>
       simp only [step] at h
       split at h
       · rename_i d' hd2
         cases h
-        refine ⟨Disp.Reach.step _ hd hd2, ?_⟩
         obtain ⟨_, _, _, this⟩ := Disp.enter_ok hd2
-        show (d'.deqd ++ s.pending).Sublist s.accepted
-        rw [this]
-        exact hs
+        refine ⟨Disp.Reach.step _ hd hd2, ?_, ?_⟩
+        · show (d'.deqd ++ s.pending).Sublist s.accepted
+          rw [this]
+          exact hs
+        · intro x hx
+          show x ∈ d'.deqd ∨ x ∈ s.pending ∨ x ∈ s.dropped
+          rw [this]
+          exact hk x hx
       · cases h
     | done j =>
       simp only [step] at h
       split at h
       · rename_i d' hd2
         cases h
-        refine ⟨Disp.Reach.step _ hd hd2, ?_⟩
         obtain ⟨_, _, this⟩ := Disp.done_ok hd2
-        show (d'.deqd ++ s.pending).Sublist s.accepted
-        rw [this]
-        exact hs
+        refine ⟨Disp.Reach.step _ hd hd2, ?_, ?_⟩
+        · show (d'.deqd ++ s.pending).Sublist s.accepted
+          rw [this]
+          exact hs
+        · intro x hx
+          show x ∈ d'.deqd ∨ x ∈ s.pending ∨ x ∈ s.dropped
+          rw [this]
+          exact hk x hx
       · cases h
 
 theorem inv_reach {s : State} (h : Reach s) : J s := by
@@ -116,6 +160,11 @@ theorem handout_is_acceptance_order {s : State} (h : Reach s) : s.d.deqd.Sublist
 /-- … and what is still pending comes after everything handed out, in acceptance order -/
 theorem handout_then_pending {s : State} (h : Reach s) : (s.d.deqd ++ s.pending).Sublist s.accepted :=
   (inv_reach h).sub
+
+/-- nothing accepted disappears inside the queue: every accepted job has been handed to the dispatcher, is still pending, or
+    was removed by a Purge (which closes what it removes) -/
+theorem accepted_is_somewhere {s : State} (h : Reach s) : ∀ j ∈ s.accepted, j ∈ s.d.deqd ∨ j ∈ s.pending ∨ j ∈ s.dropped :=
+  (inv_reach h).kept
 
 /-- "with concurrency 1 this is exactly the execution order": as long as the limit never exceeded 1, worker functions
     start in acceptance order (the jobs missing from the sequence were purged, cancelled or skipped) -/
@@ -171,6 +220,7 @@ example : ∃ s, Reach s ∧ s.d.maxLim ≤ 1 ∧ s.d.entered = [1, 2] ∧ s.acc
   refine ⟨_, reach_run Reach.init (es := [.d (.lim 1), .enq 1, .enq 2, .d (.deq 1), .d (.enter 1), .d (.done 1), .d (.deq 2), .d (.enter 2)]) rfl, ?_, rfl, rfl⟩
   decide
 
+#print axioms accepted_is_somewhere
 #print axioms handout_is_acceptance_order
 #print axioms serial_is_acceptance_order
 #print axioms started_were_accepted
